@@ -40,7 +40,11 @@ pub fn make_vector(vm: &mut Vm) -> Result<VCell, Error> {
         _ => return Err(err()),
     };
 
-    let outv = vec![fill; len];
+    // the size is the program's: a vector nobody can allocate is an error, not a panic
+    let mut outv = Vec::new();
+    outv.try_reserve_exact(len)
+        .map_err(|_| InvalidSyntax(format!("make-vector: cannot allocate {} elements", len)))?;
+    outv.resize(len, fill);
     Ok(VCell::vector(outv))
 }
 
